@@ -53,6 +53,7 @@ class C12(Check):
         "patch i is nearest to reported centre i; refusal test: measurements on catalogs with different key sets or centres "
         "shifted by f x radius (f in 0, 0.2, 1.5, 3, 10) must raise for f > 1 and must not for f = 0. "
         "non-trivial = >= 2 patches; distinct = case parameters + seed"
+        ' Further classes: zero weights, an ignored index column next to given centres, caches below patch-like directory names, a copy with shifted time stamps, reopening after build_trees, random catalogs with generated centres, refusal test with large scales.'
     )
     assumptions = ["objects closer than 1e-9 rad to a patch boundary are not generated (margin filter)"]
     floor_nontrivial = 30
